@@ -12,8 +12,15 @@ Spec      : spec/Config.tla.  Declarative layer (Verdict / Declared / Merge:
             "comoving edges are those of the configuration's cosmology" and
             "edges span exactly [zmin, zmax]"), EqualParamsCompareEqual,
             EqNeverRaises, RoundTripIdentity, OriginalUnchanged, Termination.
-            Nine deviation configs (the code as found) must each produce their
-            counterexample, which is replayed on the real code.
+            Deviation configs (the code as found, plus "PhysicalViaComoving":
+            D_A derived as D_C/(1+z)) must each produce their counterexample,
+            which is replayed on the real code.  The cosmology dimension has
+            kinds with AND without the identity D_A = D_C/(1+z) (flat astropy
+            models / curved LambdaCDM open + closed / CustomCosmology with its
+            own angular_diameter_distance): the spec names which distance
+            method of which cosmology an angle is r / D(z) of, and TLC shows
+            that a domain of flat cosmologies alone cannot tell the two
+            measures apart (PhysicalViaComoving passes there).
 spec->code: TLC prints one line per completed public operation (history, verdict,
             expected abstract object, expected sub-result of every code step,
             expected observations).  EVERY such history of every slice is executed
@@ -24,7 +31,11 @@ spec->code: TLC prints one line per completed public operation (history, verdict
             distance for each candidate cosmology, computed independently with
             astropy + brentq) and compared with TLC's state; the code steps are
             bound to the real ScalesConfig / BinningConfig / parse_cosmology
-            calls; angles are compared with r / D(z) from astropy.
+            calls; angles are compared with r / D(z), D = the distance method
+            the spec names (angular_diameter_distance for kpc/Mpc,
+            comoving_distance for kpc/h, Mpc/h) of the configured cosmology
+            object itself; the curved / custom distances are cross-checked
+            against an own Friedmann integral resp. the closed forms.
 oracle    : a violation is raised only from the real objects: outcome class
             (raised / returned) against the declared verdict, projection against
             the declared configuration, modify result against a real
@@ -79,7 +90,13 @@ DEVIATIONS = {
     "ModifyEdgesNoneIsCustom": ("ModifyEqualsCreate", "outcome", dict(), dict(edges=[()])),
     "ComovingCustomFloats": ("Validation", "binning_step", dict(methods=["comoving"], cosmos=["custom"]), dict()),
     "InexactEndPoints": ("Validation", "end_points", dict(methods=["comoving"]), dict()),
+    "PhysicalViaComoving": ("AnglesUseConfiguredCosmology", "angle", dict(cosmos=["open"]), dict()),
 }
+# cosmology kinds: with / without the identity D_A(z) = D_C(z) / (1+z)
+CUSTOM = ("custom", "customDA")
+CURVED = ("open", "closed")
+FLRW_KINDS = ("Planck15", "WMAP9", "anon") + CURVED
+REL_TIED, REL_FREE = "DA=DC/(1+z)", "independent"
 
 # ---------------------------------------------------------------------------
 # domains (TLA+ text).  z in 1/100; scales, rweight tokens are opaque ints.
@@ -94,7 +111,7 @@ E1 = (10, 30, 70)
 E2 = (5, 20, 50, 100, 300)
 EBAD = [(10, 10, 30), (30, 10)]
 UNITS = ["kpc", "Mpc", "rad", "deg", "arcmin", "arcsec", "kpc/h", "Mpc/h"]
-COSMOS = ["omitted", "none", "Planck15", "WMAP9", "s:Planck15", "s:WMAP9", "anon", "custom", "s:Bogus", "badtype"]
+COSMOS = ["omitted", "none", "Planck15", "WMAP9", "s:Planck15", "s:WMAP9", "anon", "open", "closed", "custom", "customDA", "s:Bogus", "badtype"]
 
 
 def tset(values) -> str:
@@ -148,7 +165,7 @@ def slices(quick: bool) -> list[dict]:
         rmin=[(50,), (50, 60), (2000,)], rmax=[(5000,), (5000, 6000)], unit=["Mpc", "deg", "arcsec", "kpc/h", "pc"],
         rw=[NONE, 2], res=[NONE, 10], zmin=[20, 0, 150], zmax=[200, 5], nb=[1, 2], method=["linear", "comoving", "logspace", "custom", "bogus"],
         edges=[(), E2, EBAD[0], EBAD[1]], closed=["left", "right"],
-        cosmo=["WMAP9", "Planck15", "none", "s:WMAP9", "s:Planck15", "s:Bogus", "custom", "anon", "badtype"], workers=[4, NONE],
+        cosmo=["WMAP9", "Planck15", "none", "s:WMAP9", "s:Planck15", "s:Bogus", "custom", "anon", "badtype", "open", "customDA"], workers=[4, NONE],
     )
     out = [
         make_slice("create-generated", dict(
@@ -165,7 +182,20 @@ def slices(quick: bool) -> list[dict]:
             zpairs=[(10, 100), (NONE, NONE)], numbins=[1, 3, 30])),
         make_slice("create-scales", dict(
             scales=[S1, S2, S3, SMIS] + SBAD, units=UNITS + ["pc"], rw=[(NONE, NONE), (1, NONE), (1, 20), (2, 50)],
-            cosmos=["omitted", "WMAP9", "custom"])),
+            cosmos=["omitted", "WMAP9", "custom", "open", "customDA"])),
+        # cosmologies whose angular diameter distance is NOT comoving distance / (1+z): every unit, single and multiple scales
+        make_slice("create-curved", dict(
+            scales=[S1, S2], units=UNITS, methods=["linear", "comoving"], numbins=[3] if quick else [1, 3],
+            cosmos=["open", "closed", "customDA", "custom", "anon"])),
+        make_slice("modify-curved", dict(
+            scales=[S1, S2], units=["kpc", "Mpc/h"], methods=["linear", "comoving"], cosmos=["omitted", "open", "closed", "customDA"]),
+            dict(cosmo=["open", "closed", "customDA", "custom", "WMAP9", "none"], unit=["Mpc", "kpc/h", "deg"] if quick else ["Mpc", "kpc", "kpc/h", "Mpc/h", "deg"],
+                 rmin=[(50,), (50, 60)], rmax=[(5000,), (5000, 6000)], rw=[2], zmin=[20], nb=[2], method=["comoving"] if quick else ["comoving", "linear"],
+                 closed=["left"], workers=[4]),
+            maxmods=1, maxdelta=2, workers=4),
+        make_slice("histories-curved", dict(units=["Mpc"], cosmos=["open", "customDA"], methods=["linear", "comoving"]),
+                   dict(cosmo=["closed", "customDA", "none"], unit=["kpc/h", "kpc"], rmin=[(50,)], zmax=[200], method=["comoving"]),
+                   maxmods=2 if quick else 3, maxdelta=1, workers=4),
         make_slice("modify-generated", dict(
             methods=["linear", "comoving"] if quick else ["linear", "comoving", "logspace"],
             cosmos=["omitted", "WMAP9"] if quick else ["omitted", "WMAP9", "anon"],
@@ -202,7 +232,7 @@ def deviation_slice() -> dict:
     return make_slice(
         "deviations",
         dict(zpairs=[(10, 100), (0, 100), (NONE, NONE)], edges=[(), E1], methods=["linear", "comoving"],
-             cosmos=["omitted", "WMAP9", "custom"]),
+             cosmos=["omitted", "WMAP9", "custom", "open"]),
         dict(rmin=[(50,)], closed=["left"], edges=[()], cosmo=["s:WMAP9"], workers=[4]),
         maxmods=1, maxdelta=1, workers=1,
     )
@@ -280,9 +310,58 @@ class World:
             def __repr__(self):
                 return "PlainCosmology()"
 
+        class SkewCosmology(CustomCosmology):
+            """custom cosmology whose angular diameter distance is deliberately NOT
+            comoving_distance / (1+z) (the interface does not promise that)"""
+
+            def comoving_distance(self, z):
+                return 3000.0 * np.asarray(z, dtype=float)
+
+            def angular_diameter_distance(self, z):
+                z = np.asarray(z, dtype=float)
+                return 2000.0 * z / (1.0 + 0.5 * z)
+
+            def __repr__(self):
+                return "SkewCosmology()"
+
         self.cosmo = {"Planck15": ac.Planck15, "WMAP9": ac.WMAP9, "anon": ac.FlatLambdaCDM(H0=70.0, Om0=0.3),
-                      "custom": PlainCosmology()}
+                      "open": ac.LambdaCDM(H0=70.0, Om0=0.3, Ode0=0.5), "closed": ac.LambdaCDM(H0=70.0, Om0=0.3, Ode0=0.9),
+                      "custom": PlainCosmology(), "customDA": SkewCosmology()}
+        # independent distances (Mpc) of the kinds without the identity D_A = D_C/(1+z): (D_C, D_A)(z)
+        self.reference = {"open": lambda z: friedmann_distances(70.0, 0.3, 0.5, z), "closed": lambda z: friedmann_distances(70.0, 0.3, 0.9, z),
+                          "customDA": lambda z: (3000.0 * z, 2000.0 * z / (1.0 + 0.5 * z))}
         self._comov = {}
+        self._dist = {}
+
+    def distance(self, cid, measure, z) -> float:
+        """the distance method `measure` of cosmology `cid` ITSELF, in Mpc"""
+        if measure == "comoving_distance/(1+z)":
+            return self.distance(cid, "comoving_distance", z) / (1.0 + z)
+        key = (cid, measure, z)
+        if key not in self._dist:
+            d = getattr(self.cosmo[cid], measure)(z)
+            self._dist[key] = float(getattr(d, "value", d))
+        return self._dist[key]
+
+    def relation(self, cid) -> str:
+        """does THIS cosmology object tie its two distance methods by D_A = D_C/(1+z)?"""
+        dev = max(abs(self.distance(cid, "angular_diameter_distance", z) * (1.0 + z) / self.distance(cid, "comoving_distance", z) - 1.0) for z in Z_PROBE)
+        return REL_TIED if dev < 1e-12 else (REL_FREE if dev > 1e-3 else f"unclear({dev:.1e})")
+
+    def oracle_problems(self) -> list:
+        """self-check of the expectation: the distance methods used as oracle agree
+        with an own Friedmann integral (curved models) resp. the closed forms, and
+        the two measures differ by > 1e-4 at EVERY probe redshift for these kinds."""
+        out = []
+        for cid, ref in self.reference.items():
+            for z in Z_PROBE:
+                dc, da = ref(z)
+                for measure, val in (("comoving_distance", dc), ("angular_diameter_distance", da)):
+                    if abs(self.distance(cid, measure, z) / val - 1.0) > 1e-7:
+                        out.append((cid, measure, z, self.distance(cid, measure, z), val))
+                if abs(da * (1.0 + z) / dc - 1.0) < 1e-4:
+                    out.append((cid, "measures_too_close", z, da * (1.0 + z), dc))
+        return out
 
     # -- abstract -> real ---------------------------------------------------
     def cosmo_arg(self, tok):
@@ -345,7 +424,7 @@ class World:
         for k, v in self.cosmo.items():
             if obj is v:
                 return k
-        for k in ("Planck15", "WMAP9", "anon"):
+        for k in FLRW_KINDS:
             try:
                 if obj == self.cosmo[k]:
                     return k
@@ -400,7 +479,7 @@ class World:
         if method == "comoving":
             gen = "?"
             if zmin != "?" and zmax != "?" and len(edges) == nb + 1:
-                cands = [c for c in [prefer_gen, "Planck15", "WMAP9", "anon", "custom"] if c in self.cosmo]
+                cands = [c for c in (prefer_gen,) + FLRW_KINDS + CUSTOM if c in self.cosmo]
                 for c in dict.fromkeys(cands):
                     if np.max(np.abs(edges - self.comoving_edges(c, zmin / 100, zmax / 100, nb))) < 1e-6:
                         gen = c
@@ -452,9 +531,34 @@ class World:
             return r
         if measure == "deg":
             return r * math.pi / 180.0
-        c = self.cosmo[cid]
-        d = getattr(c, measure)(z)
-        return r / float(getattr(d, "value", d))
+        return r / self.distance(cid, measure, z)
+
+    def angle_diagnosis(self, got, toks, div, cid, z) -> str:
+        """which distance method of which cosmology reproduces the real angle"""
+        for c in dict.fromkeys((cid,) + FLRW_KINDS + CUSTOM):
+            for m in ("angular_diameter_distance", "comoving_distance", "comoving_distance/(1+z)"):
+                for dv in dict.fromkeys((div, 1, 1000)):
+                    exp = self.expected_angle([float(t) for t in toks], m, dv, c, z)
+                    if np.shape(got) == np.shape(exp) and np.allclose(got, exp, rtol=1e-10, atol=0.0):
+                        return f"r/{dv} / {m}(z) of cosmology {c}"
+        return "none of the distance methods of the known cosmologies"
+
+
+def friedmann_distances(H0: float, Om0: float, Ode0: float, z: float) -> tuple:
+    """(line-of-sight comoving distance, angular diameter distance) in Mpc of a
+    matter + Lambda + curvature model, integrated here (no astropy)."""
+    from scipy.integrate import quad
+
+    ok = 1.0 - Om0 - Ode0
+    dh = 299792.458 / H0
+    dc = dh * quad(lambda x: 1.0 / math.sqrt(Om0 * (1 + x) ** 3 + ok * (1 + x) ** 2 + Ode0), 0.0, z, epsabs=0.0, epsrel=1e-13)[0]
+    if ok > 0:
+        dm = dh / math.sqrt(ok) * math.sinh(math.sqrt(ok) * dc / dh)
+    elif ok < 0:
+        dm = dh / math.sqrt(-ok) * math.sin(math.sqrt(-ok) * dc / dh)
+    else:
+        dm = dc
+    return dc, dm / (1.0 + z)
 
 
 def call(fn, *a, **kw):
@@ -476,7 +580,13 @@ def pyrepr(kw: dict) -> str:
             return "[" + ", ".join(r(x) for x in v) + "]"
         if v is None or isinstance(v, (int, str)):
             return repr(v)
-        return {"PlainCosmology()": "PlainCosmology()"}.get(repr(v), getattr(v, "name", None) or "FlatLambdaCDM(H0=70.0, Om0=0.3)")
+        if repr(v) in ("PlainCosmology()", "SkewCosmology()"):
+            return repr(v)
+        if getattr(v, "name", None):
+            return v.name
+        if type(v).__name__ == "LambdaCDM":
+            return f"LambdaCDM(H0={v.H0.value}, Om0={v.Om0}, Ode0={v.Ode0})"
+        return "FlatLambdaCDM(H0=70.0, Om0=0.3)"
 
     return ", ".join(f"{k}={r(v)}" for k, v in kw.items())
 
@@ -503,7 +613,11 @@ def same_binning(a: tuple, b: tuple) -> bool:
 
 
 def cosmo_class(tok: str) -> str:
-    if tok in ("omitted", "none", "anon", "custom", "badtype"):
+    if tok in CUSTOM:
+        return "custom"
+    if tok in CURVED:
+        return "anon"  # an unnamed FLRW object, too
+    if tok in ("omitted", "none", "anon", "badtype"):
         return tok
     if tok.startswith("s:"):
         return "unknown_str" if tok == "s:Bogus" else "str"
@@ -521,8 +635,9 @@ class Replayer:
         self.by_key: dict = {}    # history -> case
         self.symptoms: dict = {}  # history -> {"entry|outcome"} reported for it
         self.passed: list[Case] = []  # accepted cases whose real result matched (for the binding demonstration)
+        self.passed_angles: list[Case] = []  # ... physical unit, cosmology without D_A = D_C/(1+z), real angles matched
         self.stats = dict(cases=0, skipped_below_divergence=0, open_cases=0, accept=0, reject=0, comoving=0, substeps=0,
-                          angles=0, eq=0, roundtrips=0, files=0, end_point_error=dict(logspace=0.0, comoving=0.0))
+                          angles=0, angles_measures_differ=0, eq=0, roundtrips=0, files=0, end_point_error=dict(logspace=0.0, comoving=0.0))
 
     # ---- classes for the structural keys -----------------------------------
     def binning_class(self, case: Case, parent_obj, to_obj, cosmo=True) -> str:
@@ -536,7 +651,7 @@ class Replayer:
             if kind == "comoving" and cosmo:
                 if q["zmin"] == 0:
                     s += ",zmin=0"
-                if q["cosmo"] == "custom":
+                if q["cosmo"] in CUSTOM:
                     s += ",cosmology=custom"
             return s
         frm = parent_obj[5] if parent_obj else "?"
@@ -554,7 +669,7 @@ class Replayer:
                 s += f",cosmology=->{cosmo_class(d['cosmo'])}"
             else:
                 cur = parent_obj[I_COSMO] if parent_obj else "?"
-                s += f",cosmology=kept({'custom' if cur == 'custom' else resolved_default(cur)})"
+                s += f",cosmology=kept({'custom' if cur in CUSTOM else resolved_default(cur)})"
         if "edges" in d and not d["edges"]:
             s += ",edges=None"
         return s
@@ -910,12 +1025,16 @@ class Replayer:
         obj = case.obj
         unit = obj[2]
         # angles: r / D(z) for the unit's distance measure and the configured cosmology
-        measure, div, cid = case.angle
+        measure, div, cid, rel = case.angle
+        angles_ok = True
+        if rel == REL_FREE and measure in ("angular_diameter_distance", "comoving_distance"):
+            self.stats["angles_measures_differ"] += 1  # a case that tells the two distance measures apart
         for z in Z_PROBE:
             self.stats["angles"] += 1
             k, ang = call(cfg.scales.scales.get_angle_radian, z, cfg.cosmology)
             if k == "raises":
-                report(f"C15|get_angle_radian|unit={unit},cosmology={cosmo_class(cid) if cid in ('custom', 'anon') else 'named'}|raises_{type(ang).__name__}",
+                angles_ok = False
+                report(f"C15|get_angle_radian|unit={unit},cosmology={cosmo_class(cid) if cid in CUSTOM + CURVED + ('anon',) else 'named'}|raises_{type(ang).__name__}",
                        self.detail(case, z=z, error=repr(ang)[:300]))
                 break
             bad = False
@@ -923,11 +1042,16 @@ class Replayer:
                 exp = w.expected_angle([float(t) for t in toks], measure, div, cid, z)
                 if np.shape(got) != np.shape(exp) or not np.allclose(got, exp, rtol=1e-10, atol=0.0):
                     report(f"C15|get_angle_radian|unit={unit}|angle_differs",
-                           self.detail(case, z=z, got=np.asarray(got).tolist(), expected=exp.tolist(), measure=measure, divisor=div, cosmology=cid))
+                           self.detail(case, z=z, got=np.asarray(got).tolist(), expected=exp.tolist(), measure=measure, divisor=div, cosmology=cid,
+                                       distance_measures_of_this_cosmology=rel,
+                                       real_angle_is=w.angle_diagnosis(got, toks, div, cid, z) if np.ndim(got) == 1 else "?"))
                     bad = True
                     break
             if bad:
+                angles_ok = False
                 break
+        if angles_ok and demanded and rel == REL_FREE and unit in ("kpc", "Mpc") and case.op == "create" and len(self.passed_angles) < 8:
+            self.passed_angles.append(case)
         # twin: a configuration freshly created from the declared (merged) parameters
         tk, twin = call(w.Configuration.create, **w.create_kwargs(case.decl, 3))
         if tk == "raises":
@@ -1099,6 +1223,21 @@ def replay_counterexample(world: World, state: dict, aspect: str) -> dict:
         model["binning_step"] = (last["rb"]["st"], last["rb"]["err"])
         real["binning_step"] = ("ok", "-") if k == "ok" else ("raises", type(r).__name__)
         present = model["binning_step"] == real["binning_step"]
+    elif aspect == "angle":  # which distance method reproduces the real angles (cosmology without D_A = D_C/(1+z))
+        a = last["obs"]["angle"]
+        model["angle"] = (a["measure"], a["div"], a["cosmo"])
+        present = False
+        if kind == "ok" and model["obj"]:
+            def matches(measure) -> bool:
+                for z in Z_PROBE:
+                    got = cfg.scales.scales.get_angle_radian(z, cfg.cosmology)
+                    for g, toks in zip(got, (model["obj"][0], model["obj"][1])):
+                        if not np.allclose(g, world.expected_angle([float(t) for t in toks], measure, a["div"], a["cosmo"], z), rtol=1e-10, atol=0.0):
+                            return False
+                return True
+
+            real["angle"] = dict(matches_deviation=matches(a["measure"]), matches_declared=matches("angular_diameter_distance"))
+            present = real["angle"]["matches_deviation"] and not real["angle"]["matches_declared"]
     elif aspect == "outcome":
         present = real["out"] == model["out"] and (real["err"] == model["err"] if real["out"] == "rejects" else same_obj(real.get("obj", ()), model["obj"]))
     elif aspect == "end_points":
@@ -1125,7 +1264,10 @@ def run(ctx: Ctx) -> None:
                "linear/custom, 1e-9 for logspace, 1e-6 for comoving (z_at_value is a numerical inversion); a defect smaller than "
                "that is invisible")
     ctx.assume("redshift / scale values are a small grid (1/100 steps, a few scale tokens); cosmologies are Planck15 (default), "
-               "WMAP9, one unnamed FLRW object and one CustomCosmology returning plain floats")
+               "WMAP9, one unnamed flat FLRW object, two curved LambdaCDM objects (Ok0 = +0.2 / -0.2), one CustomCosmology returning the "
+               "plain floats of a flat model and one whose angular_diameter_distance is unrelated to comoving_distance/(1+z)")
+    ctx.assume("the distance measure of kpc/h and Mpc/h is cosmology.comoving_distance(z) (line of sight; the only comoving distance of "
+               "the CustomCosmology interface), of kpc and Mpc cosmology.angular_diameter_distance(z); angles are probed at z = 0.07, 0.5, 1.3")
     world = World()
 
     if ctx.replay:
@@ -1147,6 +1289,10 @@ def run(ctx: Ctx) -> None:
                 assert set(vals) <= set(dsl["P"].get(k, []) + dsl["D"].get(k, [])), (dev, k)
             jobs[("dev", dev)] = ex.submit(run_slice, dev_sl, (dev,), None, False, False)
         jobs[("live", "")] = ex.submit(run_slice, dsl, (), None, False, True, True)
+        # the same defect on a domain of cosmologies that all have D_A = D_C/(1+z): TLC cannot see it
+        blind_sl = make_slice("dev-blind", dict(units=["kpc", "Mpc", "Mpc/h"], scales=[S1, S2], cosmos=["omitted", "WMAP9", "anon", "custom"]),
+                              dict(cosmo=["WMAP9", "custom", "none"]), maxmods=1, maxdelta=1, workers=1)
+        jobs[("blind", "")] = ex.submit(run_slice, blind_sl, ("PhysicalViaComoving",), None, False, False)
         results = {k: f.result() for k, f in jobs.items()}
 
     res = results[("live", "")]
@@ -1154,6 +1300,14 @@ def run(ctx: Ctx) -> None:
     ctx.require(res.ok, f"Config ideal design fails on the deviation domain: {res.error_kind} {res.error_name}")
     for act in ACTIONS:
         ctx.require(res.coverage.get(act, (0, 0))[1] > 0, f"Config action {act} never taken on the deviation domain")
+
+    res = results[("blind", "")]
+    ctx.add_tlc("Config deviation PhysicalViaComoving, only cosmologies with D_A = D_C/(1+z) (must pass: the two measures coincide there)", res)
+    ctx.require(res.ok, f"deviation PhysicalViaComoving is visible on flat cosmologies (model of the distance identity broken): {res.error_kind} {res.error_name}")
+    probs = world.oracle_problems()
+    ctx.require(not probs, f"distance oracle: methods of the curved / custom cosmologies disagree with the independent formulas or do not differ: {probs[:3]}")
+    ctx.extra["distance_measures"] = {cid: dict(relation=world.relation(cid), **{f"DA*(1+z)/DC-1 at z={z}": world.distance(cid, "angular_diameter_distance", z) * (1 + z) / world.distance(cid, "comoving_distance", z) - 1 for z in Z_PROBE})
+                                      for cid in world.cosmo}
 
     devinfo = {}
     for dev, (inv, aspect, _, _) in DEVIATIONS.items():
@@ -1201,13 +1355,27 @@ def run(ctx: Ctx) -> None:
         res.out = ""  # free the text
     for act in ACTIONS:
         ctx.require(taken.get(act, 0) > 0, f"action {act} never taken in any slice (vacuous)")
+    # the spec's classification of the cosmology kinds is that of the real objects, and the domains contain, for every
+    # kind WITHOUT the identity D_A = D_C/(1+z): create / modify(cosmology=...) / modify of other parameters, single and multiple scales
+    classes = set()
+    relmap = {cid: world.relation(cid) for cid in world.cosmo}
+    for c in all_cases.values():
+        if c.out == "ok" and c.verdict == "accept":
+            _, _, cid, rel = c.angle
+            ctx.require(relmap.get(cid) == rel, f"cosmology {cid}: the spec says {rel}, the real object {relmap.get(cid)}")
+            if rel == REL_FREE and c.obj[2] in ("kpc", "Mpc", "kpc/h", "Mpc/h"):
+                how = "create" if c.op == "create" else ("modify_cosmology" if "cosmo" in dict(c.mods[-1]) else "modify_other")
+                classes.add((how, "multi" if len(c.obj[0]) > 1 else "single", "physical" if c.obj[2] in ("kpc", "Mpc") else "comoving", cid))
+    missing = [k for k in itertools.product(("create", "modify_cosmology", "modify_other"), ("single", "multi"), ("physical", "comoving"), CURVED + ("customDA",))
+               if k not in classes]
+    ctx.require(not missing, f"domains lack accepted cases for cosmologies without D_A = D_C/(1+z): {missing[:6]}")
     t_replay = time.time()
     with scratch("c15_") as tmp:
         nproc = 4 if quick else 8
         merged = replay_parallel(ctx, world, groups, tmp, nproc)
         for name, n in merged["per_slice"].items():
             per_slice[name]["replayed"] += n
-        binding_demo(ctx, world, all_cases, merged["passed"], tmp)
+        binding_demo(ctx, world, all_cases, merged["passed"], tmp, merged["passed_angles"])
     stats = merged["stats"]
     ctx.extra["slices"] = per_slice
     ctx.extra["replay"] = stats
@@ -1216,6 +1384,8 @@ def run(ctx: Ctx) -> None:
     ctx.exhaustive = True
     ctx.require(stats["accept"] > 0 and stats["reject"] > 0 and stats["comoving"] > 0 and stats["angles"] > 0,
                 "replay did not reach accepted, rejected and comoving cases")
+    ctx.require(stats["angles_measures_differ"] > 0 or bool(ctx._violations),
+                "replay compared no angle for a cosmology whose distance measures differ although nothing was reported")
 
 
 _SHARED = None  # (tier, seed, quick, world, buckets, tmp): inherited by the forked replay workers
@@ -1232,7 +1402,8 @@ def _replay_bucket(i: int) -> dict:
         rep.replay_tree(cases)
         per_slice[name] = per_slice.get(name, 0) + rep.stats["cases"] - before
     return dict(viol=ctx._violations, drift=ctx._drift, evaluations=ctx.evaluations, nontrivial=[hash(k) for k in ctx.nontrivial],
-                validated=ctx.traces_validated, stats=rep.stats, per_slice=per_slice, passed=[tuple_of(c) for c in rep.passed[:40]])
+                validated=ctx.traces_validated, stats=rep.stats, per_slice=per_slice, passed=[tuple_of(c) for c in rep.passed[:40]],
+                passed_angles=[tuple_of(c) for c in rep.passed_angles])
 
 
 def tuple_of(c: Case) -> tuple:
@@ -1260,7 +1431,7 @@ def replay_parallel(ctx: Ctx, world: World, groups: list, tmp, nproc: int) -> di
     _SHARED = None
     stats: dict = {}
     per_slice: dict = {}
-    passed = []
+    passed, passed_angles = [], []
     for o in outs:
         for v in o["viol"]:
             for _ in range(v["count"]):
@@ -1281,10 +1452,11 @@ def replay_parallel(ctx: Ctx, world: World, groups: list, tmp, nproc: int) -> di
         for k, v in o["per_slice"].items():
             per_slice[k] = per_slice.get(k, 0) + v
         passed += [Case(t) for t in o["passed"]]
-    return dict(stats=stats, per_slice=per_slice, passed=passed)
+        passed_angles += [Case(t) for t in o["passed_angles"]]
+    return dict(stats=stats, per_slice=per_slice, passed=passed, passed_angles=passed_angles)
 
 
-def binding_demo(ctx: Ctx, world: World, all_cases: dict, passed: list, tmp) -> None:
+def binding_demo(ctx: Ctx, world: World, all_cases: dict, passed: list, tmp, passed_angles=()) -> None:
     """Binding demonstration: a case whose EXPECTED state is corrupted must be
     flagged by the comparison with the real library (on a private context).
     Uses cases the real library passed; if it passes none (a badly broken
@@ -1314,6 +1486,24 @@ def binding_demo(ctx: Ctx, world: World, all_cases: dict, passed: list, tmp) -> 
         demos[name] = keys[:2]
         ctx.require(any(k.endswith("_differs") or "other_cosmology" in k for k in keys),
                     f"binding demonstration failed: corrupted expectation ({name}) was not noticed")
+    # angles: an expectation naming the other distance measure / another cosmology must be noticed for a cosmology
+    # without D_A = D_C/(1+z) - and is NOT noticeable (the reason for these kinds) for a flat one
+    if passed_angles:
+        a = passed_angles[0]
+        t = tuple_of(a)
+        for name, ang in (("angle_distance_measure", ("comoving_distance/(1+z)",) + a.angle[1:]),
+                          ("angle_cosmology", a.angle[:2] + ("Planck15" if a.angle[2] != "Planck15" else "WMAP9", a.angle[3]))):
+            keys = flagged(t[:9] + (ang,) + t[10:])
+            demos[name] = keys[:2]
+            ctx.require(any(k.endswith("angle_differs") for k in keys), f"binding demonstration failed: corrupted expectation ({name}) was not noticed")
+        flat = [c for c in creates if c.angle[3] == REL_TIED and c.angle[0] == "angular_diameter_distance"]
+        if flat:
+            t = tuple_of(flat[0])
+            keys = flagged(t[:9] + (("comoving_distance/(1+z)",) + flat[0].angle[1:],) + t[10:])
+            demos["angle_distance_measure_on_flat_cosmology(invisible)"] = [k for k in keys if "angle" in k]
+    else:
+        ctx.require(bool(ctx._violations), "no physical-unit case with a cosmology without D_A = D_C/(1+z) passed although nothing was reported")
+        demos["angle_distance_measure"] = "skipped: the library under test passed no such case"
     # a rejected case presented as 'accept' / an accepted one as 'reject'
     g, c = creates[0], rejects[0]
     keys = flagged(("case", c.p0, c.mods, (c.op, "ok", "-", "done", "accept"), g.obj, g.decl, c.rs, c.rb, c.rc, g.angle, g.eq, g.rt))
